@@ -78,23 +78,23 @@ func (c *vmVersionCache) Set(k *enode.Node, v uint8, ttl time.Duration) {
 	c.keys = append(c.keys, k)
 	c.vals = append(c.vals, v)
 }
-func (c *vmVersionCache) Add(k *enode.Node, v uint8) bool                 { panic("unused") }
-func (c *vmVersionCache) GetExpiration(k *enode.Node) (time.Time, bool) { panic("unused") }
-func (c *vmVersionCache) GetOldest() (*enode.Node, uint8, bool)          { panic("unused") }
-func (c *vmVersionCache) Contains(k *enode.Node) bool                    { _, ok := c.Get(k); return ok }
-func (c *vmVersionCache) Peek(k *enode.Node) (uint8, bool)               { return c.Get(k) }
-func (c *vmVersionCache) Values() []uint8                                { return c.vals }
-func (c *vmVersionCache) Keys() []*enode.Node                            { return c.keys }
-func (c *vmVersionCache) Len() int                                       { return len(c.keys) }
-func (c *vmVersionCache) Remove(k *enode.Node) bool                      { panic("unused") }
-func (c *vmVersionCache) Invalidate(k *enode.Node)                       { panic("unused") }
-func (c *vmVersionCache) InvalidateFn(fn func(k *enode.Node) bool)       { panic("unused") }
-func (c *vmVersionCache) RemoveOldest() (*enode.Node, uint8, bool)       { panic("unused") }
-func (c *vmVersionCache) DeleteExpired()                                 {}
-func (c *vmVersionCache) Purge()                                         { c.keys, c.vals = nil, nil }
-func (c *vmVersionCache) Resize(int) int                                 { return 0 }
-func (c *vmVersionCache) Stat() cache.Stats                              { return cache.Stats{} }
-func (c *vmVersionCache) String() string                                 { return "vmVersionCache" }
+func (c *vmVersionCache) Add(k *enode.Node, v uint8) bool                       { panic("unused") }
+func (c *vmVersionCache) GetExpiration(k *enode.Node) (time.Time, bool)         { panic("unused") }
+func (c *vmVersionCache) GetOldest() (*enode.Node, uint8, bool)                 { panic("unused") }
+func (c *vmVersionCache) Contains(k *enode.Node) bool                           { _, ok := c.Get(k); return ok }
+func (c *vmVersionCache) Peek(k *enode.Node) (uint8, bool)                      { return c.Get(k) }
+func (c *vmVersionCache) Values() []uint8                                       { return c.vals }
+func (c *vmVersionCache) Keys() []*enode.Node                                   { return c.keys }
+func (c *vmVersionCache) Len() int                                              { return len(c.keys) }
+func (c *vmVersionCache) Remove(k *enode.Node) bool                             { panic("unused") }
+func (c *vmVersionCache) Invalidate(k *enode.Node)                              { panic("unused") }
+func (c *vmVersionCache) InvalidateFn(fn func(k *enode.Node) bool)              { panic("unused") }
+func (c *vmVersionCache) RemoveOldest() (*enode.Node, uint8, bool)              { panic("unused") }
+func (c *vmVersionCache) DeleteExpired()                                        {}
+func (c *vmVersionCache) Purge()                                                { c.keys, c.vals = nil, nil }
+func (c *vmVersionCache) Resize(int) int                                        { return 0 }
+func (c *vmVersionCache) Stat() cache.Stats                                     { return cache.Stats{} }
+func (c *vmVersionCache) String() string                                        { return "vmVersionCache" }
 func (c *vmVersionCache) WithTTL(time.Duration) cache.Cache[*enode.Node, uint8] { return c }
 func (c *vmVersionCache) WithMaxKeys(int) cache.Cache[*enode.Node, uint8]       { return c }
 func (c *vmVersionCache) WithLRU() cache.Cache[*enode.Node, uint8]              { return c }
@@ -126,3 +126,22 @@ func vhVersionCache() cache.Cache[*enode.Node, uint8] {
 	}
 	return &vmVersionCache{}
 }
+
+// ---- stub groups -----------------------------------------------------------------------------
+
+// Opaque peer node: accessors return a value memoised per node (attr), so n.ID() is the same
+// symbolic 32 bytes every time.
+//
+//verif:group node
+//verif:stub attr (*github.com/ethereum/go-ethereum/p2p/enode.Node).ID (*github.com/ethereum/go-ethereum/p2p/enode.Node).Seq (*github.com/ethereum/go-ethereum/p2p/enode.Node).UDP (*github.com/ethereum/go-ethereum/p2p/enode.Node).TCP (*github.com/ethereum/go-ethereum/p2p/enode.Node).IP (*github.com/ethereum/go-ethereum/p2p/enode.Node).IPAddr (*github.com/ethereum/go-ethereum/p2p/enode.Node).Record
+//verif:stub havoc (net.IP).To4
+//verif:stub noop (net.IP).String (github.com/ethereum/go-ethereum/p2p/enode.ID).String (*github.com/ethereum/go-ethereum/p2p/enode.Node).String (*net.UDPAddr).String
+func vgNode() {}
+
+// The routing table behind its request channels: every answer is arbitrary.
+//
+//verif:group tablestub
+//verif:stub havoc,nilable (*github.com/zen-eth/shisui/portalwire.Table).getNode (*github.com/zen-eth/shisui/portalwire.Table).getNodeOrReplacement
+//verif:stub havoc (*github.com/zen-eth/shisui/portalwire.Table).addInboundNode (*github.com/zen-eth/shisui/portalwire.Table).addFoundNode
+//verif:stub noop (*github.com/zen-eth/shisui/portalwire.Table).trackRequest
+func vgTableStub() {}
